@@ -6,4 +6,4 @@ for s in sorted(os.listdir('/verif/seeded')):
         v=json.load(open(p))
         st=v.get('steps',{})
         ok = all(st.get(k) for k in ['demo_passes_on_clean_tree','demo_fails_with_patch','suite_passes_with_patch'])
-        print(s, 'DETECTED' if v.get('detected_by') else 'missed', 'confirmed' if ok else 'UNCONFIRMED %s'%{k:st.get(k) for k in ['demo_passes_on_clean_tree','demo_fails_with_patch','suite_passes_with_patch']}, v.get('error','')[:200], [ (c,r['exit'],r['signatures'][:1]) for c,r in list(v.get('checks',{}).items())+list(v.get('checks_thorough',{}).items())])
+        print(s, 'DETECTED' if v.get('detected_by') else 'missed', 'confirmed' if ok else 'UNCONFIRMED %s'%{k:st.get(k) for k in ['demo_passes_on_clean_tree','demo_fails_with_patch','suite_passes_with_patch']}, v.get('error','')[:200], [ (c,r['exit'],r['signatures'][:1]) for c,r in list(v.get('checks',{}).items())+list(v.get('checks_thorough',{}).items())+[('after:'+c,r) for c,r in v.get('checks_after_strengthening',{}).items()]])
